@@ -334,7 +334,15 @@ fn c_keywords(c: &C, out: &mut Vec<(Kind, String)>) {
 
 const BARE: &[char] = &['-', '_', ':', '/', '.', '+', '@', '#', '$', '%', '^'];
 
+/// bare keywords that merely START with a reserved filter word: they are ordinary keywords
+const RESERVED_PREFIXED: &[&str] = &[
+    "NOT_FOUND", "NOTICE", "NOTHING", "NOT-NULL", "NOTa", "NOT1", "ANDROID", "AND_x", "ANDa", "ORDER", "ORacle", "OR1", "OR_b", "CANNOT", "XOR", "BAND",
+];
+
 fn bare_keyword(r: &mut Rng) -> String {
+    if r.chance(10) {
+        return (*r.pick(RESERVED_PREFIXED)).to_string();
+    }
     let mut s = String::new();
     if r.chance(10) {
         s.push('*');
